@@ -142,12 +142,12 @@ func specSort(name string) (Sort, bool) {
 		return SBytes, true
 	case "Int":
 		return SInt, true
-	case "Key":
-		return "Key", true
+	case "Key", "KeyT":
+		return "KeyT", true
 	case "OptBytes":
 		return "OptBytes", true
 	case "Store":
-		return SArr("Key", "OptBytes"), true
+		return SArr("KeyT", "OptBytes"), true
 	case "U128":
 		return SBV(128), true
 	case "U256":
